@@ -404,6 +404,16 @@ static int ref_center(const std::vector<double> &k, unsigned o, double x, bool &
 }
 static void run_C04(const Args &a, long cs) {
 	Rng r(a.seed, "C04", cs);
+	if (cs % 50 == 7) {
+		// the table without knots (default-constructed, left by a failed read, moved from): every lookup fails, so both call operators return zero
+		Table E0; double x0[3] = {r.U(), 0.0, -1.0}; int c0[3] = {-7, -7, -7};
+		phase("empty table: searchcenters"); bool ok = E0.searchcenters(x0, c0);
+		if (ok) viol("C04:searchcenters:empty-table-lookup-succeeds", "{}");
+		phase("empty table: operator()"); double v = E0(x0); if (!(v == 0)) viol("C04:operator():nonzero-on-failed-lookup", "{\"table\":\"empty\"}");
+		phase("empty table: get_evaluator<float>"); { auto Ef = E0.get_evaluator<float>(); phase("empty table: evaluator<float> lookup and operator()"); if (Ef.searchcenters(x0, c0)) viol("C04:searchcenters:empty-table-lookup-succeeds", "{\"path\":\"evaluator<float>\"}"); double w = Ef(x0, 0); if (!(w == 0)) viol("C04:evaluator-operator():nonzero-on-failed-lookup", "{\"table\":\"empty\"}"); }
+		phase("empty table: get_evaluator<double>"); { auto Ed = E0.get_evaluator<double>(); phase("empty table: evaluator<double> lookup and operator()"); double w = Ed(x0, 0); if (!(w == 0)) viol("C04:evaluator-operator():nonzero-on-failed-lookup", "{\"table\":\"empty\"}"); }
+		count("empty-table-lookups");
+	}
 	int nd = r.coin(0.6) ? 1 : r.range(2, 3);
 	Spec s; size_t tot = 1;
 	std::string fl;
